@@ -86,15 +86,15 @@ Lemma count_path_cons : forall q p l, count_path q (p :: l) = if path_eqb q p th
 Proof. reflexivity. Qed.
 
 (* one record *)
-Lemma step_ent : forall m st ls tid x t,
+Lemma step_ent : forall sample m st ls tid x t,
   rel m st ls -> l_get tid ls <= t -> t < W64 ->
-  let m' := step 0 m (tid, Ent x t) in
+  let m' := step sample m (tid, Ent x t) in
   rel m' (r_set tid ((x, t) :: r_get tid st) st) (l_set tid t ls)
   /\ (forall q, calls_at q (g_root (m_g m')) = calls_at q (g_root (m_g m))
                 + (if path_eqb q (rpath ((x, t) :: r_get tid st)) then 1 else 0))
   /\ (forall q, time_at q (g_root (m_g m')) = time_at q (g_root (m_g m))).
 Proof.
-  intros m st ls tid x t R Hl Ht. pose proof (R tid) as [Hf [Hp [Hv [Hs [Hlast Hw]]]]].
+  intros sample m st ls tid x t R Hl Ht. pose proof (R tid) as [Hf [Hp [Hv [Hs [Hlast Hw]]]]].
   apply valid_at_1 in Hv. destruct Hv as [cur Hcur].
   cbv zeta. unfold step. rewrite Hcur. cbn [m_g m_t].
   split; [|split].
@@ -117,16 +117,16 @@ Qed.
 Lemma frames_of_bump : forall d st, frames_of (bump_child d st) = frames_of st.
 Proof. intros d [|f r]; reflexivity. Qed.
 
-Lemma step_ext : forall m st ls tid x t y t0 k,
+Lemma step_ext : forall sample m st ls tid x t y t0 k,
   rel m st ls -> r_get tid st = (y, t0) :: k -> l_get tid ls <= t -> t < W64 ->
-  let m' := step 0 m (tid, Ext x t) in
+  let m' := step sample m (tid, Ext x t) in
   rel m' (r_set tid k st) (l_set tid t ls)
   /\ (forall q, calls_at q (g_root (m_g m')) = calls_at q (g_root (m_g m)))
   /\ (forall q, time_at q (g_root (m_g m')) =
                 if path_eqb q (rpath ((y, t0) :: k)) then add64 (time_at q (g_root (m_g m))) (t - t0)
                 else time_at q (g_root (m_g m))).
 Proof.
-  intros m st ls tid x t y t0 k R Hk Hl Ht. pose proof (R tid) as [Hf [Hp [Hv [Hs [Hlast Hw]]]]].
+  intros sample m st ls tid x t y t0 k R Hk Hl Ht. pose proof (R tid) as [Hf [Hp [Hv [Hs [Hlast Hw]]]]].
   rewrite Hk in Hf, Hp.
   apply valid_at_1 in Hv. destruct Hv as [cur Hcur].
   cbv zeta. unfold step.
@@ -143,7 +143,7 @@ Proof.
     + unfold rel_task. cbn [ts_path ts_stack ts_last]. repeat split.
       * rewrite frames_of_bump. exact Hrest.
       * rewrite Hp, rpath_cons. apply removelast_last.
-      * rewrite (g_exit0_valid _ _ _ _ _ _ Hcur). rewrite Hp, rpath_cons, removelast_last.
+      * rewrite (g_exit_valid _ _ _ _ _ _ _ Hcur). rewrite Hp, rpath_cons, removelast_last.
         apply valid_at_1. exact Hvk.
       * destruct rest as [|f2 r2]; [exact I|]. simpl in Hs2. destruct Hs2 as [Hs3 Hs4]. simpl.
         split; [|exact Hs4].
@@ -151,22 +151,22 @@ Proof.
       * exact Ht.
     + pose proof (R tid') as [Hf' [Hp' [Hv' [Hs' [Hlast' Hw']]]]].
       unfold rel_task. repeat split; try assumption.
-      rewrite (g_exit0_valid _ _ _ _ _ _ Hcur). exact Hv'.
-  - intros q. cbn [m_g m_t]. apply (g_exit0_calls _ _ _ _ _ _ Hcur).
-  - intros q. cbn [m_g m_t]. rewrite (g_exit0_time _ _ _ _ _ _ Hcur), Hp. reflexivity.
+      rewrite (g_exit_valid _ _ _ _ _ _ _ Hcur). exact Hv'.
+  - intros q. cbn [m_g m_t]. apply (g_exit_calls _ _ _ _ _ _ _ Hcur).
+  - intros q. cbn [m_g m_t]. rewrite (g_exit_time _ _ _ _ _ _ _ Hcur), Hp. reflexivity.
 Qed.
 
 (* the whole stream *)
-Lemma run_inv : forall s m st ls C T,
+Lemma run_inv : forall sample s m st ls C T,
   rel m st ls -> wf_run st s = true -> mono_run ls s = true ->
   (forall q, calls_at q (g_root (m_g m)) = C q) ->
   (forall q, time_at q (g_root (m_g m)) = T q mod W64) ->
-  let m' := fold_left (step 0) s m in
+  let m' := fold_left (step sample) s m in
   rel m' (snd (ref_calls_run st s)) (lasts_run ls s)
   /\ (forall q, calls_at q (g_root (m_g m')) = C q + count_path q (ref_entries st s))
   /\ (forall q, time_at q (g_root (m_g m')) = (T q + time_path q (fst (ref_calls_run st s))) mod W64).
 Proof.
-  induction s as [|[tid e] s IH]; intros m st ls C T R Hwf Hmono HC HT; cbv zeta.
+  intros sample. induction s as [|[tid e] s IH]; intros m st ls C T R Hwf Hmono HC HT; cbv zeta.
   - simpl. split; [exact R|]. split; intros q; [rewrite HC|rewrite HT, N.add_0_r]; [lia|reflexivity].
   - simpl in Hmono. apply andb_prop in Hmono. destruct Hmono as [Hm1 Hmono].
     apply andb_prop in Hm1. destruct Hm1 as [Hle Hlt].
@@ -174,9 +174,9 @@ Proof.
     destruct e as [x t|x t]; simpl in Hle, Hlt, Hmono.
     + (* ENTRY *)
       simpl in Hwf.
-      destruct (step_ent m st ls tid x t R Hle Hlt) as [R' [Hc Ht]].
+      destruct (step_ent sample m st ls tid x t R Hle Hlt) as [R' [Hc Ht]].
       simpl fold_left.
-      specialize (IH (step 0 m (tid, Ent x t)) _ _
+      specialize (IH (step sample m (tid, Ent x t)) _ _
                      (fun q => C q + (if path_eqb q (rpath ((x, t) :: r_get tid st)) then 1 else 0)) T
                      R' Hwf Hmono).
       cbv zeta in IH. destruct IH as [R2 [C2 T2]].
@@ -189,9 +189,9 @@ Proof.
     + (* EXIT *)
       simpl in Hwf. destruct (r_get tid st) as [|[y t0] k] eqn:Hk; [discriminate|].
       apply andb_prop in Hwf. destruct Hwf as [_ Hwf].
-      destruct (step_ext m st ls tid x t y t0 k R Hk Hle Hlt) as [R' [Hc Ht]].
+      destruct (step_ext sample m st ls tid x t y t0 k R Hk Hle Hlt) as [R' [Hc Ht]].
       simpl fold_left.
-      specialize (IH (step 0 m (tid, Ext x t)) _ _ C
+      specialize (IH (step sample m (tid, Ext x t)) _ _ C
                      (fun q => if path_eqb q (rpath ((y, t0) :: k)) then T q + (t - t0) else T q)
                      R' Hwf Hmono).
       cbv zeta in IH. destruct IH as [R2 [C2 T2]].
@@ -212,15 +212,15 @@ Definition stack_ok_c (last carry : N) (st : list frame) : Prop :=
   | f :: r => f_start f + f_child f + carry <= last /\ stack_ok (f_start f) r
   end.
 
-Lemma close_frames_inv : forall tid last st carry p g T,
+Lemma close_frames_inv : forall sample tid last st carry p g T,
   last < W64 -> stack_ok_c last carry st -> p = rpath (frames_of st) -> valid_at p (g_root g) = 1 ->
   (forall q, time_at q (g_root g) = T q mod W64) ->
-  (forall q, time_at q (g_root (fst (close_frames 0 last carry st p g)))
+  (forall q, time_at q (g_root (fst (close_frames sample last carry st p g)))
              = (T q + time_path q (close_ref tid last (frames_of st))) mod W64)
-  /\ (forall q, calls_at q (g_root (fst (close_frames 0 last carry st p g))) = calls_at q (g_root g))
-  /\ (forall q, valid_at q (g_root g) = 1 -> valid_at q (g_root (fst (close_frames 0 last carry st p g))) = 1).
+  /\ (forall q, calls_at q (g_root (fst (close_frames sample last carry st p g))) = calls_at q (g_root g))
+  /\ (forall q, valid_at q (g_root g) = 1 -> valid_at q (g_root (fst (close_frames sample last carry st p g))) = 1).
 Proof.
-  intros tid last. induction st as [|f rest IH]; intros carry p g T Hw Hs Hp Hv HT.
+  intros sample tid last. induction st as [|f rest IH]; intros carry p g T Hw Hs Hp Hv HT.
   - simpl. split; [|split]; intros q; [rewrite HT, N.add_0_r| |]; auto.
   - simpl in Hs. destruct Hs as [Hs1 Hs2].
     assert (Hfc : add64 (f_child f) carry = f_child f + carry) by (apply add64_small; lia).
@@ -229,9 +229,9 @@ Proof.
     assert (E2 : last - f_start f <? f_child f + carry = false) by (apply N.ltb_ge; lia). rewrite E2.
     apply valid_at_1 in Hv. destruct Hv as [cur Hcur].
     simpl frames_of in Hp. rewrite rpath_cons in Hp.
-    set (g1 := g_exit 0 p (last - f_start f) (f_child f + carry) g).
+    set (g1 := g_exit sample p (last - f_start f) (f_child f + carry) g).
     assert (Hv1 : valid_at (removelast p) (g_root g1) = 1).
-    { unfold g1. rewrite (g_exit0_valid _ _ _ _ _ _ Hcur). apply valid_at_1.
+    { unfold g1. rewrite (g_exit_valid _ _ _ _ _ _ _ Hcur). apply valid_at_1.
       rewrite Hp, removelast_last. rewrite Hp in Hcur. apply (valid_prefix _ _ _ _ Hcur). }
     assert (Hs' : stack_ok_c last (last - f_start f) rest).
     { destruct rest as [|f2 r2]; [exact I|]. simpl in Hs2. destruct Hs2 as [Hs3 Hs4]. simpl. split; [lia|exact Hs4]. }
@@ -239,38 +239,38 @@ Proof.
     specialize (IH (last - f_start f) (removelast p) g1
                    (fun q => if path_eqb q p then T q + (last - f_start f) else T q) Hw Hs' Hp' Hv1).
     destruct IH as [I1 [I2 I3]].
-    { intros q. unfold g1. rewrite (g_exit0_time _ _ _ _ _ _ Hcur), HT.
+    { intros q. unfold g1. rewrite (g_exit_time _ _ _ _ _ _ _ Hcur), HT.
       destruct (path_eqb q p); [apply add64_mod|reflexivity]. }
     split; [|split]; intros q.
     + rewrite I1. simpl frames_of. simpl close_ref. rewrite time_path_cons. unfold rc_dur. simpl rc_path. simpl rc_t0. simpl rc_t1.
       rewrite rpath_cons, <- Hp. destruct (path_eqb q p); f_equal; lia.
-    + rewrite I2. unfold g1. apply (g_exit0_calls _ _ _ _ _ _ Hcur).
-    + intros Hq. apply I3. unfold g1. rewrite (g_exit0_valid _ _ _ _ _ _ Hcur). exact Hq.
+    + rewrite I2. unfold g1. apply (g_exit_calls _ _ _ _ _ _ _ Hcur).
+    + intros Hq. apply I3. unfold g1. rewrite (g_exit_valid _ _ _ _ _ _ _ Hcur). exact Hq.
 Qed.
 
 Definition rel_on (l : list N) (m : mstate) (st : list (N * rstack)) (ls : list (N * N)) : Prop :=
   forall tid, In tid l -> rel_task (g_root (m_g m)) (t_get tid (m_t m)) (r_get tid st) (l_get tid ls).
 
-Lemma close_tasks_inv : forall tids m st ls T,
+Lemma close_tasks_inv : forall sample tids m st ls T,
   NoDup tids -> rel_on tids m st ls -> (forall q, time_at q (g_root (m_g m)) = T q mod W64) ->
-  (forall q, time_at q (g_root (m_g (close_tasks 0 tids m)))
+  (forall q, time_at q (g_root (m_g (close_tasks sample tids m)))
              = (T q + time_path q (flat_map (fun tid => close_ref tid (l_get tid ls) (r_get tid st)) tids)) mod W64)
-  /\ (forall q, calls_at q (g_root (m_g (close_tasks 0 tids m))) = calls_at q (g_root (m_g m))).
+  /\ (forall q, calls_at q (g_root (m_g (close_tasks sample tids m))) = calls_at q (g_root (m_g m))).
 Proof.
-  induction tids as [|tid r IH]; intros m st ls T Hnd R HT.
+  intros sample. induction tids as [|tid r IH]; intros m st ls T Hnd R HT.
   - simpl. split; intros q; [rewrite HT, N.add_0_r|]; reflexivity.
   - inversion Hnd as [|? ? Hnot Hnd']; subst.
     pose proof (R tid (or_introl eq_refl)) as [Hf [Hp [Hv [Hs [Hlast Hw]]]]].
     simpl close_tasks.
-    destruct (close_frames 0 (ts_last (t_get tid (m_t m))) 0 (ts_stack (t_get tid (m_t m)))
+    destruct (close_frames sample (ts_last (t_get tid (m_t m))) 0 (ts_stack (t_get tid (m_t m)))
                            (ts_path (t_get tid (m_t m))) (m_g m)) as [g' p'] eqn:Ecf.
     assert (Hs0 : stack_ok_c (ts_last (t_get tid (m_t m))) 0 (ts_stack (t_get tid (m_t m)))).
     { destruct (ts_stack (t_get tid (m_t m))) as [|f rest]; [exact I|]. simpl in *. destruct Hs. split; [lia|assumption]. }
     assert (Hp0 : ts_path (t_get tid (m_t m)) = rpath (frames_of (ts_stack (t_get tid (m_t m))))) by (rewrite Hf; exact Hp).
     assert (Hw0 : ts_last (t_get tid (m_t m)) < W64) by (rewrite Hlast; exact Hw).
-    destruct (close_frames_inv tid _ _ 0 _ (m_g m) T Hw0 Hs0 Hp0 Hv HT) as [C1 [C2 C3]].
+    destruct (close_frames_inv sample tid _ _ 0 _ (m_g m) T Hw0 Hs0 Hp0 Hv HT) as [C1 [C2 C3]].
     rewrite Ecf in C1, C2, C3. simpl fst in C1, C2, C3.
-    match goal with |- context [close_tasks 0 r ?mm] => set (m1 := mm) end.
+    match goal with |- context [close_tasks sample r ?mm] => set (m1 := mm) end.
     assert (R1 : rel_on r m1 st ls).
     { intros tid' Hin. unfold m1. cbn [m_g m_t]. rewrite t_get_set.
       assert (Hne : tid =? tid' = false) by (apply N.eqb_neq; intros ->; contradiction).
@@ -298,19 +298,24 @@ Proof. intros sel rootname [|x q] H; unfold stat; simpl; [exact H|reflexivity]. 
 (* THE GRAPH IS THE AGGREGATION OF THE TRACE: for every name path q the node at q (if any) counts the calls
    whose name path is q and sums their durations (calls still open at the end last until the task's final
    time stamp); there is no node exactly when there is no such call (both sides are 0) *)
-Theorem graph_sums : forall rootname tids s q, wf_stream s = true -> NoDup tids ->
-  calls_at q (graph_build 0 rootname tids s) = count_path q (ref_entries [] s)
-  /\ time_at q (graph_build 0 rootname tids s) = time_path q (ref_calls tids s) mod W64.
+Theorem graph_sums_gen : forall sample rootname tids s q, wf_stream s = true -> NoDup tids ->
+  calls_at q (graph_build sample rootname tids s) = count_path q (ref_entries [] s)
+  /\ time_at q (graph_build sample rootname tids s) = time_path q (ref_calls tids s) mod W64.
 Proof.
-  intros rootname tids s q Hwf Hnd. unfold wf_stream in Hwf. apply andb_prop in Hwf. destruct Hwf as [Hwf Hmono].
-  destruct (run_inv s (m_init rootname) [] [] (fun _ => 0) (fun _ => 0) (rel_init rootname) Hwf Hmono) as [R [C T]].
+  intros sample rootname tids s q Hwf Hnd. unfold wf_stream in Hwf. apply andb_prop in Hwf. destruct Hwf as [Hwf Hmono].
+  destruct (run_inv sample s (m_init rootname) [] [] (fun _ => 0) (fun _ => 0) (rel_init rootname) Hwf Hmono) as [R [C T]].
   { intros q'. apply stat_root0. reflexivity. }
   { intros q'. change (g_root (m_g (m_init rootname))) with (root0 rootname). unfold time_at. rewrite stat_root0; reflexivity. }
   unfold graph_build.
-  destruct (close_tasks_inv tids _ _ _ _ Hnd (fun tid _ => R tid) T) as [D1 D2].
+  destruct (close_tasks_inv sample tids _ _ _ _ Hnd (fun tid _ => R tid) T) as [D1 D2].
   split.
   - rewrite D2, C. reflexivity.
   - rewrite D1. unfold ref_calls. destruct (ref_calls_run [] s) as [cs st']. simpl fst. simpl snd.
     rewrite time_path_app. f_equal. f_equal. f_equal.
     apply flat_map_ext. intros tid. rewrite lasts_run_last_time. reflexivity.
 Qed.
+
+Theorem graph_sums : forall rootname tids s q, wf_stream s = true -> NoDup tids ->
+  calls_at q (graph_build 0 rootname tids s) = count_path q (ref_entries [] s)
+  /\ time_at q (graph_build 0 rootname tids s) = time_path q (ref_calls tids s) mod W64.
+Proof. intros. apply graph_sums_gen; assumption. Qed.
